@@ -122,6 +122,15 @@ Theorem C20_python_predicates_compute_clause_semantics : forall rules specs ir i
 Proof. exact python_predicates_compute_clause_semantics. Qed.
 Print Assumptions C20_python_predicates_compute_clause_semantics.
 
+(* ---- for ARBITRARY rows (variables, repeated variables: not only ground ones): a Python predicate over the rows answers
+        every call exactly as the same rows stored as dynamic facts (assert_fact) - engines that differ only in this answer
+        every query alike *)
+Theorem C20_python_predicate_equals_dynamic_facts : forall w w' name k rows vals,
+  python_vs_dynamic w w' name k rows vals ->
+  forall n qname args s, nquery n w qname args s = nquery n w' qname args s.
+Proof. exact python_equals_dynamic_facts_nquery. Qed.
+Print Assumptions C20_python_predicate_equals_dynamic_facts.
+
 (* ---- "next to dynamic facts": the stored facts of name/arity answer first, then the function found for the call *)
 Theorem C20_dynamic_facts_first : forall call w name args s,
   Resolve.reserved name = false ->
